@@ -3,9 +3,10 @@
 Proof: FP/Props/C04.lean — `kfdc_exact` (every satisfying assignment of the kFlowDecompCycles LP decodes to walks and
 weights explaining every non-ignored edge exactly, multiplicities within the caps), `kfdc_complete` (every cap-respecting
 decomposition with connectivity witnesses extends to a satisfying assignment, natural or fractional w_max; every walk has such
-witnesses), `cap_adequate_int` + `nonScc_once` + `within_of_int` (families with weights >= 1 meet all caps by themselves),
+witnesses), `cap_adequate_int` / `cap_adequate_floor` + `nonScc_once` + `within_of_int` (families with weights >= 1 meet all caps by themselves;
+the caps of SCC edges are the floors of the flow values since fix fcfd0b0, integers: `kfdc_cap_int`),
 `scale_law_counterexample` (the cap is not scale invariant: the self-loop instance is satisfiable with flows 1 and
-unsatisfiable for every k with flows 1/2),
+unsatisfiable for every k with flows 1/2: the loop's cap is floor(1/2) = 0, `scale_law_cap_violated`),
 `mfdc_search_minimal` / `mfdc_search_finds` / `mfdc_minimum_int` (the timed search machine of C13 with a faithful status
 script returns the least feasible k; no decomposition with weights >= 1 has fewer walks),
 `search_range_adequate` / `search_range_adequate_float` / `mfdc_search_complete_plain` (the range k <= |E| contains the minimum
@@ -29,9 +30,10 @@ from fpv.common import frac, qstr
 from props import c13
 
 THEOREMS = ["FP.Props.C04.kfdc_exact", "FP.Props.C04.kfdc_given_weights", "FP.Props.C04.intProdQ_sound",
-            "FP.Props.C04.kfdc_cap", "FP.Props.C04.kfdc_complete", "FP.Props.C04.walk_has_conn_witness",
+            "FP.Props.C04.kfdc_cap", "FP.Props.C04.kfdc_cap_int", "FP.Props.C04.kfdc_complete", "FP.Props.C04.walk_has_conn_witness",
             "FP.Props.C04.kfdc_complete_walks",
-            "FP.Props.C04.satCheck_sound", "FP.Props.C04.cap_adequate_int", "FP.Props.C04.cap_adequate_min_weight",
+            "FP.Props.C04.satCheck_sound", "FP.Props.C04.cap_adequate_int", "FP.Props.C04.cap_adequate_floor",
+            "FP.Props.C04.cap_adequate_min_weight",
             "FP.Props.C04.scale_law_counterexample",
             "FP.Props.C04.scale_law_cap_violated", "FP.Props.C04.mfdc_search_minimal",
             "FP.Props.C04.mfdc_search_finds", "FP.Props.C04.mfdc_min_walks", "FP.Props.C04.mfdc_minimum_int",
@@ -58,7 +60,8 @@ RULE = ("K2: random kFlowDecompCycles configurations of enc/kfdc.py (non-trivial
         "solver-invocation position of the real search forced to each inconclusive status, and the clock made late at every "
         "position. T6: the fixed instance of search_range_counterexample (real solve() -> True with 6 walks since fix 26b11a1, real "
         "k-models k = 1..6, Lean witness assignment for k = 6).")
-MODEL_SCOPE = ("modelled and proven: the kFlowDecompCycles LP (walk core with the three safety options off, caps, product blocks, "
+MODEL_SCOPE = ("modelled and proven: the kFlowDecompCycles LP (walk core with the three safety options off, caps - floored on SCC edges since "
+               "fix fcfd0b0 -, product blocks, "
                "10d rows, given weights), the timed k-loop of MinFlowDecompCycles.solve; not modelled (covered by the K5 oracles only): "
                "stDiGraph.get_width and the min-gen-set lower bound, the safety optimisations (C05/C06), the guessed-weights shortcut, "
                "node-weighted mode (C11). "
